@@ -74,6 +74,46 @@ def r_reset(P, chk):
             chk.violation(rid, "reset:mmd_engine.%s" % name, reset.where(),
                           "container field mmd_engine.%s is not cleared by mmd_engine_reset: entries from an earlier parse "
                           "survive into the next conversion on a reused engine" % name)
+            continue
+        # ... on every path: with "the container is not empty" decided true, the function cannot be left except through a
+        # statement that empties it (pop-until-empty loops never exit under that decision)
+        from .prog import edpe_blocks
+        rpos = reset.cfg.positions()
+        clear_blocks = set()
+        for x in reset.walk():
+            hit = False
+            if x["k"] == "BinaryOperator" and x["op"] == "=" and const_value(x["c"][1]) == 0:
+                l = resolve_key(reset, x["c"][0])
+                hit = l == k or l == k + "->size"
+            if x.get("m", "").startswith("HASH_DEL") and x["k"] == "BinaryOperator" and resolve_key(reset, x["c"][0]) == k:
+                hit = True
+            if hit:
+                z = x
+                while z is not None and z.get("i") not in rpos:
+                    z = reset.parent(z)
+                if z is not None:
+                    clear_blocks.add(rpos[z["i"]][0])
+
+        def nonempty(t_, k=k):
+            t2 = strip(t_)
+            if t2 is None:
+                return None
+            rk = resolve_key(reset, t2).replace("(", "").replace(")", "").replace(" ", "")
+            if t2["k"] in ("MemberExpr", "DeclRefExpr") and rk in (k, k + "->size"):
+                return True
+            if t2["k"] == "BinaryOperator" and t2["op"] in ("!=", "==", ">") and const_value(t2["c"][1]) == 0:
+                lk = resolve_key(reset, t2["c"][0]).replace("(", "").replace(")", "").replace(" ", "")
+                if lk in (k, k + "->size"):
+                    return t2["op"] != "=="
+            return None
+        if name.endswith("_hash"):
+            continue          # emptied by a uthash iteration macro: its loop structure is the macro's
+        escapes = reset.cfg.exit in edpe_blocks(reset, "?none", 0, extra_decide=nonempty, blocked=clear_blocks)
+        chk.obligation(rid, "mmd_engine.%s is emptied on every path through mmd_engine_reset" % name, not escapes)
+        if escapes:
+            chk.violation(rid, "reset:path:mmd_engine.%s" % name, reset.where(),
+                          "mmd_engine_reset can return while mmd_engine.%s still holds entries (an early return or a skipped branch): "
+                          "what an earlier metadata query or parse left there is still present after the next parse" % name)
     chk.floor(rid, n, 10, "container fields of struct mmd_engine")
     ps = P.func("mmd_engine_parse_substring", "mmd.c")
     rs = list(ps.calls("mmd_engine_reset"))
@@ -119,6 +159,43 @@ def r_reset(P, chk):
                       "a reused engine keeps the value the previous parse left")
 
 
+def dstring_mutation_summary(P):
+    """function id -> indices of the DString parameters it (transitively) mutates"""
+    if hasattr(P, "_dstr_mut"):
+        return P._dstr_mut
+    mut = {}
+    changed = True
+    rounds = 0
+    while changed and rounds < 8:
+        changed = False
+        rounds += 1
+        for g in P.all_funcs:
+            if not P.first_party(g) or g.unit.base == "d_string.c":
+                continue
+            gid = P.fid(g)
+            pnames = {q[0]: i for i, q in enumerate(g.params) if "DString" in q[1]}
+            if not pnames:
+                continue
+            for c in g.calls():
+                cal = c.get("callee")
+                if not cal:
+                    continue
+                args = c["c"][1:]
+                if cal in DSTRING_MUTATORS:
+                    idxs = [0]
+                else:
+                    h = P.resolve(g, cal)
+                    idxs = sorted(mut.get(P.fid(h), ())) if h is not None else []
+                for i in idxs:
+                    if i < len(args):
+                        k = key(args[i])
+                        if k in pnames and pnames[k] not in mut.setdefault(gid, set()):
+                            mut[gid].add(pnames[k])
+                            changed = True
+    P._dstr_mut = mut
+    return mut
+
+
 def r_srcconst(P, chk):
     rid = "R-SRCCONST"
     chk.rule(rid, "no function in the conversion cone mutates the engine's source DString or stores through a non-const "
@@ -127,9 +204,8 @@ def r_srcconst(P, chk):
              and "update_metavalue" not in r[1] and "transclude" not in r[1] and not r[1].startswith("d_string_")
              and not r[1].startswith("token_") and not r[1].startswith("stack_")]
     pred = P.reach(roots, stop=tuple(SRC_EXCEPT | SRC_EDITORS))
-    # which DString parameters does each function (transitively) mutate?
-    mut = {}
-    changed = True
+    mut = dstring_mutation_summary(P)
+    changed = False
     rounds = 0
     while changed and rounds < 8:
         changed = False
